@@ -10,7 +10,7 @@
 EXTENDS NatInt, TLC, FiniteSets
 S == INSTANCE FpDec WITH ZAdd <- IAdd, ZSub <- ISub, ZMul <- IMul, ZCmp <- ICmp, ZFloorDivMod <- IFloorDivMod, ZLit <- ILit,
        ZNeg <- INeg, ZAbs <- IAbs, ZSign <- ISign, ZIsEven <- IIsEven, ZMod5Is0 <- IMod5Is0, ZPow10 <- IPow10, ZPow2 <- IPow2,
-       ZDigits <- IDigits, MaxFrac <- 2, CoeffBits <- 7
+       ZDigits <- IDigits, MaxFrac <- 2, CoeffBits <- 7, CoeffMax <- 127, CoeffMin <- -128, MaxDigits <- 3
 CONSTANTS NMax, DMax
 VARIABLES n, d
 Init == n \in (0 - NMax)..NMax /\ d = 0
